@@ -73,6 +73,18 @@ def run(run: Run):
             verifies.append(copy.deepcopy(g_))
         specs.append({"id": f"c18-err-{i}", "group": grp, "members": [m0, m1, big], "derived": derived, "verifies": verifies, "log_merlin": False, "log_msm": False,
                       "with_gens": False, "_same": same})
+    # results must not be remembered across calls under a key that misses part of the input: a statement whose uncompressed commitment point was replaced
+    # (public field; the compressed form, which is what the transcript sees, kept) after the genuine triple was verified successfully
+    for i, (b, m, T, grp) in enumerate([(2, 1, 1, "fm"), (4, 2, 2, "ristretto")]):
+        mem = gen.mk_member(rng, b, m, cap=m, T=T)
+        st_bad = gen.stmt_of(mem)
+        st_bad["raw_fields"] = {"replace_commitment_point": 0}
+        bad = {"proof": 0, "stmt": st_bad, "ctx": mem["ctx"]}
+        good = gen.vmember(mem, 0)
+        specs.append({"id": f"c18-memo-{i}", "group": grp, "members": [mem], "log_merlin": False, "log_msm": False, "with_gens": False, "_beyond_constructors": True,
+                      "verifies": [{"mode": "VerifyOnly", "vmembers": [bad]}, {"mode": "VerifyOnly", "vmembers": [good]}, {"mode": "VerifyOnly", "vmembers": [bad]},
+                                   {"mode": "RecoverAndVerify", "vmembers": [good]}, {"mode": "RecoverAndVerify", "vmembers": [bad]}, {"mode": "VerifyOnly", "vmembers": [good, bad]}],
+                      "_same": {"replaced point": [0, 2, 4]}, "_same_may_fail": True})
     alone = [run_harness(["session"], [s])[0] for s in specs]           # one fresh process per session
     together = run_harness(["session"], specs + specs)                   # one process: every session twice
     order = list(range(len(specs)))
@@ -84,6 +96,12 @@ def run(run: Run):
                 res = [(o_["verifies"][j]["result"], json.dumps(o_["verifies"][j].get("masks"))) for j in idxs]
                 run.count(["err-history", s["group"], i, nm, where], {"session": s["id"], "identical calls": len(idxs), "interleaved with": "calls that end with an error", "where": where})
                 run.bump("identical calls after error exits", len(idxs))
+                if s.get("_same_may_fail"):
+                    if len({r_[0].split(":")[0] for r_ in res}) != 1 or res[0][0] == "ok":
+                        run.violation(f"a verify_batch call on a statement whose commitment point was replaced gives different answers before and after the genuine triple was verified "
+                                      f"in the same process ({[r_[0][:30] for r_ in res]}; {where}; {s['group']})", {"kind": "session", "spec": sessions.strip(s)})
+                        break
+                    continue
                 if len(set(res)) != 1 or res[0][0] != "ok":
                     k_ = next(j for j, r_ in enumerate(res) if r_ != res[0] or r_[0] != "ok")
                     run.violation(f"an identical verify_batch call returned a different result after an earlier call on the same thread ended with an error "
